@@ -103,8 +103,11 @@ PROPS = {
         "assumed": [],
     },
     "C07": {
-        "verus": ["verify_history", ("verify_base", BASE_VERIFY_FNS)],
-        "verus_thorough": ["node_label", "markers"],
+        "verus": ["verify_history", ("verify_base", BASE_VERIFY_FNS), ("markers", ["get_marker_versions", "lemma_l1", "find_max_index_in_skiplist", "get_bit_length", "get_marker_version_log2"])],
+        "verus_thorough": ["node_label"],
+        "search": True,
+        "search_pid": "C08",   # the marker sets are what makes truncating the newest / oldest entries detectable: same executable search
+        "always_search": True,
         "scope": "verifier side: key_history_verify Ok ==> non-empty, consecutive decreasing versions, start/end/parameter rules, marker lists = get_marker_versions(start, end, epoch) "
                  "with matching proof counts, results = the proofs' own (epoch, version, value) in order, non-increasing epochs, every update accepted (fresh leaf with value/epoch "
                  "commitment; previous version's stale leaf stamped with THIS update's epoch), every past marker shown present and every future marker shown absent; "
@@ -139,8 +142,12 @@ PROPS = {
         "verus": ["node_label"],
         "kani": ["c17"],
         "search": True,
+        "always_search": True,
+        "bounded_search": [{"obligation": "node_label/AzksElementSet#set_ops",
+                            "bound": "all multisets of <= 3 canonical labels of one length L <= 3 bits (thorough: 4) x every common prefix x both configurations: "
+                                     "partition / get_longest_common_prefix / contains_prefix of the binary-searchable path == the unsorted path == the bit-string meaning"}],
         "scope": "first sentence: every NodeLabel operation (bit access, prefix test, longest common prefix, prefix extraction, child direction, ordering) "
-                 "equals its bit-string meaning for all labels of 0..256 bits; second sentence (set operations): bounded Kani stand-in, see bounded",
+                 "equals its bit-string meaning for all labels of 0..256 bits; second sentence (set operations): BOUNDED stand-in (exhaustive enumeration on the real AzksElementSet code), see bounded",
         "trusted": ["TC::empty_label() is deterministic (a pure function without inputs); its two implementations are verified to return length 0"],
         "assumed": [],
     },
